@@ -3,6 +3,8 @@ package vg
 import (
 	"go/token"
 	"go/types"
+	"net/textproto"
+	"sort"
 	"strconv"
 
 	"golang.org/x/tools/go/ssa"
@@ -424,6 +426,7 @@ func runC18(c *Ctx) {
 	if nGo == 0 {
 		c.OK("C18.4", "*", "no-async", token.NoPos, "no go statement, timer or AfterFunc in any shipped function (enumerated "+itoa(len(p.Funcs))+" functions)")
 	}
+	defer runC18Signals(c)
 	closeFn := p.MustFunc("(*responseWriter).close")
 	for _, fn := range SortedFuncs(D) {
 		// functions that install a *responseWriter as the writer must defer its close before dispatching
@@ -455,6 +458,106 @@ func runC18(c *Ctx) {
 			c.Check(!found, "C18.4", FuncName(fn), "finaliser-deferred-before-dispatch", d.Pos(),
 				"every path to the dispatch passes 'defer responseWriter.close()' (final writes happen before ServeHTTP returns, also on panic)",
 				"the dispatch is reachable without the response writer's close having been deferred: "+witnessString(p, path))
+		}
+	}
+}
+
+// runC18Signals: C18.5.  Validation rejects (no dispatch) on headers it reads after the client
+// protocol's own header extraction.  An extraction may remove such a header only if it also
+// interpreted it (read it as its own compression / metadata); removing it unread silences the
+// rejection and the request is dispatched.
+func runC18Signals(c *Ctx) {
+	p := c.P
+	c.Rule("C18.5", "a header validation still inspects after protocol extraction is removed by an extraction only if that extraction interpreted it", 5)
+	validate := p.MustFunc("(*operation).validate")
+	var extractCall ssa.Instruction
+	for _, call := range Calls(validate) {
+		cc := call.Common()
+		if cc.IsInvoke() && cc.Method.Name() == "extractProtocolRequestHeaders" {
+			extractCall = call
+		}
+	}
+	if extractCall == nil {
+		c.Bad("C18.5", FuncName(validate), "extraction-call", validate.Pos(), "validation no longer calls the client protocol's header extraction: shape changed")
+		return
+	}
+	// headers validation reads after the extraction
+	signals := map[string]bool{}
+	for _, call := range Calls(validate) {
+		if !IsCallTo(call, "(net/http.Header).Get", "(net/http.Header).Values") {
+			continue
+		}
+		k, ok := ConstString(call.Common().Args[1])
+		if !ok {
+			continue
+		}
+		after, _ := PathQuery{Target: func(in ssa.Instruction) bool { return in == ssa.Instruction(call) }}.Search(validate, extractCall)
+		if after {
+			signals[textproto.CanonicalMIMEHeaderKey(k)] = true
+		}
+	}
+	var sigs []string
+	for k := range signals {
+		sigs = append(sigs, k)
+	}
+	sort.Strings(sigs)
+	if len(sigs) == 0 {
+		c.Bad("C18.5", FuncName(validate), "signals", validate.Pos(), "validation inspects no header after the protocol extraction (the Content-Encoding rejection is gone): shape changed")
+		return
+	}
+	cph := p.Iface("clientProtocolHandler")
+	for _, t := range p.Implementers(cph) {
+		m := p.MethodOf(t, "extractProtocolRequestHeaders")
+		if m == nil {
+			fatalf("anchor=%s.extractProtocolRequestHeaders not found", typeName(t))
+		}
+		reads, dels := map[string]bool{}, map[string]token.Pos{}
+		for _, fn := range SortedFuncs(p.Reach(m)) {
+			if !p.inScope(fn) {
+				continue
+			}
+			for _, call := range Calls(fn) {
+				if IsCallTo(call, "(net/http.Header).Get", "(net/http.Header).Values") {
+					if k, ok := ConstString(call.Common().Args[1]); ok {
+						reads[textproto.CanonicalMIMEHeaderKey(k)] = true
+					}
+				}
+			}
+			ForEachInstr(fn, func(in ssa.Instruction) {
+				// header[K] lookups count as reads
+				if lk, ok := in.(*ssa.Lookup); ok && isHTTPHeader(lk.X.Type()) {
+					if k, ok := ConstString(lk.Index); ok {
+						reads[textproto.CanonicalMIMEHeaderKey(k)] = true
+					}
+				}
+			})
+			for _, hm := range HeaderMutations(fn) {
+				if hm.Key == nil {
+					// wholesale removal (clear / maps.DeleteFunc): removes every signal
+					if hm.Op == "clear" || hm.Op == "builtin clear" || hm.Op == "maps.DeleteFunc" {
+						for _, k := range sigs {
+							dels[k] = hm.Instr.Pos()
+						}
+					}
+					continue
+				}
+				if hm.Op != "Del" && hm.Op != "delete" {
+					continue
+				}
+				if k, ok := ConstString(hm.Key); ok {
+					dels[textproto.CanonicalMIMEHeaderKey(k)] = hm.Instr.Pos()
+				}
+			}
+		}
+		for _, k := range sigs {
+			pos, deleted := dels[k]
+			if !deleted {
+				c.OK("C18.5", typeName(t), "keeps:"+k, m.Pos(), "the extraction leaves "+k+" in place for validation to judge")
+				continue
+			}
+			c.Check(reads[k], "C18.5", typeName(t), "removes-only-interpreted:"+k, pos,
+				"the extraction removes "+k+" after reading it as this protocol's own metadata",
+				"the extraction removes "+k+" without reading it: validation's rejection of a request carrying "+k+" is silenced and the request is dispatched")
 		}
 	}
 }
